@@ -23,6 +23,8 @@ type opSpec struct {
 
 var ops = map[string]opSpec{}
 
+var dumpTag = os.Getenv("VERIF_DUMP_TAG")
+
 func reg(name string, mode Mode, fn OpFunc) { ops[name] = opSpec{fn, mode} }
 
 // eval runs the Go side of an operation, converting panics into the answer "panic …".
@@ -62,6 +64,9 @@ func (r *Runner) DoMode(op string, args []string, tag string, nontrivial bool, d
 	t0 := time.Now()
 	ans, direct := eval(op, args)
 	r.noteForReuse(op, args, ans, tag, time.Since(t0))
+	if dumpTag != "" && strings.Contains(tag, dumpTag) { // debugging aid: VERIF_DUMP_TAG=<substring of a tag>
+		fmt.Fprintf(os.Stderr, "dump %s %s -> %s %v\n", op, truncate(strings.Join(args, " "), 200), truncate(ans, 400), direct)
+	}
 	c := &Case{Op: op, Args: args, Go: ans, Mode: mode, Direct: direct, NonTrivial: nontrivial, Tag: tag, Desc: desc}
 	if mode == DriftFull {
 		r.addDrift(c)
